@@ -36,6 +36,7 @@ type Config struct {
 	EfdHigh   bool     `json:"efdhigh,omitempty"` // eventfd counter starts near overflow
 	Listeners int      `json:"listeners,omitempty"`
 	MaxSteps  int      `json:"maxsteps,omitempty"`
+	Client    bool     `json:"client,omitempty"` // drive a gnet.Client (NewClient/Start/Dial/Enroll/Stop) instead of a listening engine
 	Serial    bool     `json:"serial,omitempty"` // peers connect one at a time, only when nothing is in transit (exact least-connections oracle)
 }
 
@@ -80,6 +81,7 @@ type ConnPlan struct {
 	CloseAct  int      `json:"close_act,omitempty"` // action returned by OnClose
 	Start     int      `json:"start,omitempty"`     // decisions to wait before connecting
 	AddrOf    int      `json:"addr_of,omitempty"`   // 1+index of an earlier peer whose source address this peer re-uses
+	UDP       bool     `json:"udp,omitempty"`       // (client mode) a connected UDP socket
 	Dial      bool     `json:"dial,omitempty"`      // the connection is created by Engine.Register / Enroll from a user task
 }
 
